@@ -581,14 +581,14 @@ protected:
   virtual bool IsProblemSolvedOrFeasible() const {
     assert( IsSolStatusRetrieved() );
     return
-        (sol::SOLVED_LAST>=SolveCode() &&
-         sol::SOLVED<=SolveCode())
+        (sol::SOLVED<=SolveCode() &&
+         SolveCode()<=sol::SOLVED_LAST)
         ||
-        (sol::LIMIT_FEAS>=SolveCode() &&
-         sol::LIMIT_FEAS_LAST<=SolveCode())
+        (sol::LIMIT_FEAS<=SolveCode() &&
+         SolveCode()<=sol::LIMIT_FEAS_LAST)
         ||
-        (sol::UNBOUNDED_FEAS>=SolveCode() &&
-         sol::UNBOUNDED_NO_FEAS_LAST<=SolveCode());
+        (sol::UNBOUNDED_FEAS<=SolveCode() &&
+         SolveCode()<=sol::UNBOUNDED_FEAS_LAST);
   }
   /// Undecidedly infeas or unbnd
   virtual bool IsProblemIndiffInfOrUnb() const {
